@@ -212,7 +212,13 @@ class NestedFrame(pd.DataFrame):
             nested, field = components
             # Support a special case of embedding a base column into a nested column, with values being
             # repeated in each nested list-array.
-            if isinstance(value, pd.Series) and self.index.equals(value.index):
+            # A series computed from nested fields (eval) is flat by construction, also when its
+            # index happens to equal the frame's (repeated labels): it must not be taken for one value per row
+            if (
+                isinstance(value, pd.Series)
+                and not isinstance(value, _SeriesFromNest)
+                and self.index.equals(value.index)
+            ):
                 new_nested_series = self[nested].nest.with_filled_field(field, value)
             else:
                 new_nested_series = self[nested].nest.with_flat_field(field, value)
